@@ -26,4 +26,37 @@ def collect(facts):
             if k == "loop":
                 inv["loops"] += 1
         walk(fn["body"], visit)
+    inv["mir_calls_not_in_hir"] = mir_cross_check(facts)
     return inv
+
+
+IMPLICIT = {"std::ops::Deref::deref", "std::ops::DerefMut::deref_mut", "std::ops::Fn::call",
+            "std::ops::FnOnce::call_once", "std::ops::FnMut::call_mut"}
+
+
+def mir_cross_check(facts):
+    """E4 completeness self-check: every call edge rustc's MIR has for a function must be visible in the
+    exported typed HIR of that function (as a resolved callee), except the implicit calls that HIR
+    records as adjustments (overloaded deref) or as calls of closure values."""
+    missing = []
+    for p, fn in facts.fns.items():
+        hir = set()
+
+        def v(n):
+            c = n.get("callee")
+            if c:
+                hir.add(c["def"])
+                if c.get("res"):
+                    hir.add(c["res"])
+            if n["k"] == "path" and n["res"].get("callee"):
+                cc = n["res"]["callee"]
+                hir.add(cc["def"])
+                if cc.get("res"):
+                    hir.add(cc["res"])
+            if n["k"] == "ctor":
+                hir.add(n["path"])
+        walk(fn["body"], v)
+        for c in fn.get("mir_calls", []):
+            if c["def"] not in hir and c["def"] not in IMPLICIT:
+                missing.append({"fn": p, "callee": c["def"], "sp": c["sp"]})
+    return missing
